@@ -24,6 +24,11 @@ def gen_scenario(rng, allow_findings=True, max_events=7, profile=None):
     sc['tstep'] = rng.choice([1 / 30, 1 / 30, 1 / 120, 0.01, 0.1, 0.0333, 0.5, 1 / 60, 0.004])
     if rng.random() < 0.04:
         sc['tstep'] = rng.choice([0.0, -1.0])
+    elif rng.random() < 0.05:
+        # a fixed step below the floor the routine estimates for itself (deltatmin = min(period / 500, span / 2000)):
+        # valid input (the routine only warns); a few thousand scripted steps
+        sc['tstep'] = rng.choice([2.5e-5, 2e-5, 1.25e-5])
+        tf = rng.choice([0.06, 0.08])          # span / 2000 > tstep
     sc['fixt'] = 1 if rng.random() < 0.6 else 0
     sc['shrinkt'] = 1 if rng.random() < 0.9 else 0
     # segments (resume): strictly useful splits plus degenerate ones
